@@ -406,16 +406,22 @@ void c14_dubins_impl(vf::Tape & t, vf::Ctx & ctx, int K)
       bool strict = true;
       for (int i = 0; i < 3; ++i)
         if (w.s[i] != 0 && (w.p[i] < 1e-7L || w.p[i] > TWO_PI - 1e-7L)) strict = false;
+      // CSC word with the same turning direction and a vanishing straight part (the two turning circles coincide): the
+      // individual angles are ill-defined (the direction of a zero-length straight is arbitrary) and the two arcs merge
+      // into one arc of angle (t + q) mod 2pi.  Circles that coincide up to the rounding of their centres (1e-12 R) are
+      // the case the library documents ("if circles coincide we just follow the circle"): the single arc is then the
+      // upper bound as well.  Between 1e-12 and 1e-6 the minimum is discontinuous in the target (a displaced circle may
+      // need a full extra turn): lower bound only.
+      const bool coincide = w.s[0] == w.s[2] && w.s[1] == 0 && w.p[1] < 1e-6L;
+      if (coincide) strict = false;
       consider(w, strict);
-      // CSC word with the same turning direction and a vanishing straight part: the two arcs merge into one arc of
-      // angle (t + q) mod 2pi (the individual angles are ill-defined there: the tangent direction of a zero-length
-      // straight is arbitrary)
-      if (w.s[0] == w.s[2] && w.s[1] == 0 && w.p[1] < 1e-6L) {
+      if (coincide) {
         Word v = w;
         v.p[0] = mod2pi(w.p[0] + w.p[2]);
         if (v.p[0] > TWO_PI - 1e-6L) v.p[0] = 0;
         v.p[2] = 0;
-        consider(v, false);
+        v.p[1] = 0;
+        consider(v, w.p[1] <= 1e-12L && v.p[0] > 1e-7L);
       }
       // arc parameters within 1e-7 of 0 / 2pi may legitimately count either way
       for (int i = 0; i < 3; ++i)
@@ -518,8 +524,10 @@ void c14_reparam(vf::Tape & t, vf::Ctx & ctx)
     how << "FixedCubic chain n=" << n;
     ctx.label("reparam:fixedcubic-chain");
   }
-  if (c.t_max() <= 0) {
-    ctx.discard("empty input curve");
+  // curves shorter than 1e-3 are outside the domain: the step ds = span / N of the forward pass is then below the
+  // resolution of its closed-form segment duration (-v + sqrt(v^2 + 2 ds a)) / a
+  if (c.t_max() - c.t_min() < 1e-3) {
+    ctx.discard("empty or near-empty input curve (span < 1e-3)");
     return;
   }
   Eigen::Vector3d vmax, amax;
@@ -536,7 +544,60 @@ void c14_reparam(vf::Tape & t, vf::Ctx & ctx)
   }
   ctx.set_nontrivial(true);
   if (std::getenv("VF_TRACE")) std::cerr << "TRACE " << ctx.desc.str() << std::endl;  // decoded case of an aborting replay
-  const auto s = reparameterize_spline(c, vmin, vmax, amin, amax, start_vel, end_vel, N);
+  // Distribution labels: predicted accuracy of the reverse-pass LPs (lp2d works with absolute tolerances of 2.2e-14 after
+  // dividing every right-hand side by the largest one) relative to the scale of their optimum, and whether the curve
+  // slows below 1% of its top speed at a partition point.
+  {
+    const double s0 = c.t_min(), ds = (c.t_max() - c.t_min()) / static_cast<double>(N);
+    double worst = 0, vtop = 0, vlow = std::numeric_limits<double>::infinity();
+    for (std::size_t i = 0; i <= N; ++i) {
+      Eigen::Vector3d vel, acc;
+      c(s0 + ds * static_cast<double>(i), vel, acc);
+      vtop = std::max(vtop, vel.cwiseAbs().maxCoeff());
+      vlow = std::min(vlow, vel.cwiseAbs().maxCoeff());
+      double ybar = std::numeric_limits<double>::infinity(), lam = 1;
+      for (int j = 0; j < 3; ++j) {
+        if (std::abs(vel(j)) > 1e-8) {
+          const double b = vel(j) > 0 ? vmax(j) : vmin(j);
+          ybar = std::min(ybar, b * b / (vel(j) * vel(j)));
+          lam  = std::max(lam, b * b / (vel(j) * vel(j)));
+        }
+        const double n = std::hypot(acc(j), vel(j));
+        if (n > 2.2e-14) lam = std::max({lam, amax(j) / n, -amin(j) / n});
+      }
+      if (ybar < std::numeric_limits<double>::infinity()) worst = std::max(worst, 2.2e-14 * lam / ybar);
+    }
+    ctx.label(vlow < 1e-2 * vtop ? "reparam:slows-below-1%-of-top-speed" : "reparam:keeps-moving");
+    ctx.label(worst > 1e-7 ? "reparam:lp-badly-scaled" : "reparam:lp-well-scaled");
+  }
+  // The library reports (through its -DSMOOTH_VERIF event hook) when it takes one of three numerical fallbacks:
+  //   reparam.skip   the curve does not move over a step, which is crossed in zero time: s jumps although x(s(t)) is
+  //                  continuous - outside what "onto" can mean, the case is discarded (counted);
+  //   reparam.lp     a reverse-pass LP came back negative / infeasible although (0,0) is feasible  -> known finding
+  //                  "reparam.lp2d.scale";
+  //   reparam.clamp  the forward pass has to brake harder than the bounds allow and clamps        -> known finding
+  //                  "reparam.brake-clamp".
+  // While a finding is open its call site ends the case (counted as excluded_known); with the entry closed or
+  // steering off the call runs to the end and every clause below applies.
+  struct ReparamEvent { std::string name; };
+  static thread_local bool stop_skip, stop_lp, stop_clamp;
+  stop_skip  = true;
+  stop_lp    = vf::Ctx::known_open("reparam.lp2d.scale");
+  stop_clamp = vf::Ctx::known_open("reparam.brake-clamp");
+  smooth::verif_event_hook = [](const char * name) {
+    const std::string n(name);
+    if ((n == "reparam.skip" && stop_skip) || (n == "reparam.lp" && stop_lp) || (n == "reparam.clamp" && stop_clamp)) throw ReparamEvent{n};
+  };
+  Spline<2, double> s;
+  try {
+    s = reparameterize_spline(c, vmin, vmax, amin, amax, start_vel, end_vel, N);
+  } catch (const ReparamEvent & e) {
+    smooth::verif_event_hook = nullptr;
+    if (e.name == "reparam.skip") ctx.discard("input curve stationary over a whole step of the partition (crossed in zero time)");
+    else ctx.exclude_known(e.name == "reparam.lp" ? "reparam.lp2d.scale" : "reparam.brake-clamp");
+    return;
+  }
+  smooth::verif_event_hook = nullptr;
   const double T = s.t_max();
   ctx.require("duration finite and positive", std::isfinite(T) && T > 0, vf::str(T));
   if (!(std::isfinite(T) && T > 0)) return;
